@@ -25,7 +25,7 @@ from sim.runner import Outcome
 
 ID = "C19"
 LEVEL = "exploration"
-RUN_WALL_S = 20
+RUN_WALL_S = 90
 N_SWEEP = 14
 TIERS = {
     "quick": {"cases": 24000, "episode": 100, "selftest": 48, "wall_cap_s": 600, "shrink_s": 45},
